@@ -4,6 +4,7 @@ from ..callgraph import callee_name
 from ..cfg import cfg_of
 from ..dataflow import du_of, place_key, val_ref_target
 from ..framework import Check
+from ..taint import local_deps
 from .parse_common import tests_dominating, ok_return_blocks, deep_mentions
 from .c05 import const_str, header_aggregates, _method_eq
 
@@ -44,7 +45,7 @@ def run(ctx):
                     r1.violate("C15|R1|%s" % label, "%s can return Ok without the '%s' test: a response with an unknown status / mismatched reason phrase would be accepted" % (sl.def_, label), sl.file, sl.span["line"], sl.def_)
 
     # ---- R2 framing headers are pushed onto the vector that is serialised
-    r2 = chk.rule("R2-push-target-is-serialised-vector", "in each serialiser every framing header (Content-Type, Content-Range, Content-Length) is pushed onto the same Response value whose headers the serialisation loop iterates", floor=6)
+    r2 = chk.rule("R2-push-target-is-serialised-vector", "in each serialiser every framing header (Content-Type, Content-Range, Content-Length) is pushed onto the same Response value whose headers the serialisation loop iterates", floor=2)
     r2b = chk.rule("R2b-siblings-agree-on-body", "the associated-function serialiser suppresses the body only by request-method tests (HEAD / OPTIONS); no other condition (status, size ...) that the instance serialiser does not have", floor=1)
     for sname in SERIALISERS:
         fn = F.fns.get(sname)
@@ -54,18 +55,43 @@ def run(ctx):
         fn = ctx.inl(fn)        # the header loop may be a private helper taking `&response.headers`
         du = du_of(fn)
         cfg = cfg_of(fn)
-        # iterated vector
-        iter_base = None
+        # the vector whose elements become header lines: `X.headers` of some Response value, or a plain local list
+        iter_vec = None
         for bid, t in fn.calls():
             c = callee_name(t) or ""
-            if "IntoIterator" in c and c.endswith("::into_iter") and t["args"]:
+            if "IntoIterator" in c and c.endswith("::into_iter") and t["args"] and "header::Header" in " ".join(t.get("arg_tys") or []):
                 v = du.val_operand(t["args"][0])
-                base = _headers_base(du, v)
-                if base is not None:
-                    iter_base = base
-        if iter_base is None:
+                while v[0] == "call" and v[1] and v[1].endswith(("::iter", "::iter_mut", "as std::clone::Clone>::clone")) and v[2]:
+                    v = v[2][0]          # `x.headers.iter()`, `x.headers.clone()` taken right here: the elements of x.headers
+                tg = val_ref_target(du, v) if v[0] in ("ref", "place", "call") else None
+                if tg is not None:
+                    iter_vec = _norm_vec(du, tg)
+        if iter_vec is None:
             r2.violate("C15|R2|%s|no-loop" % sname, "%s does not iterate a headers vector" % sname, fn.file, fn.span["line"], sname)
             continue
+        ld = local_deps(fn)
+
+        def flows_into(vec, depth=0):
+            """vec is the iterated vector, or is appended to / extends a vector that is (a clone is a snapshot, not a flow)"""
+            if vec == iter_vec:
+                return True
+            if depth > 2 or vec[1]:
+                return False
+            for b2, t2 in fn.calls():
+                c2 = callee_name(t2) or ""
+                if not (c2.endswith("::append") or c2.endswith("::extend") or (t2.get("callee") or "") == "std::iter::Extend::extend") or len(t2["args"]) != 2:
+                    continue
+                src = t2["args"][1]
+                if src.get("k") not in ("copy", "move"):
+                    continue
+                sv = val_ref_target(du, du.val_operand(src))
+                src_l = du.canon(sv)[0] if sv is not None else (src["l"] if not src["p"] else None)
+                if src_l is None or vec[0] not in (ld.closure(src_l) | {src_l}):
+                    continue
+                dst = val_ref_target(du, du.val_operand(t2["args"][0]))
+                if dst is not None and flows_into(_norm_vec(du, dst), depth + 1):
+                    return True
+            return False
         k = 0
         for bid, t in fn.calls():
             if callee_name(t) != "std::vec::Vec::<T, A>::push" or "header::Header" not in (t.get("arg_tys") or ["", ""])[1]:
@@ -75,9 +101,10 @@ def run(ctx):
             if hv[0] == "aggregate" and hv[2] == "header::Header":
                 d = dict(zip(hv[4], hv[3]))
                 hname = const_str(d["name"])
+            if hname not in ("Content-Type", "Content-Range", "Content-Length"):
+                continue
             tgt = val_ref_target(du, du.val_operand(t["args"][0]))
-            base = _strip_headers(tgt)
-            ok = base is not None and _same_value(du, base, iter_base)
+            ok = tgt is not None and flows_into(_norm_vec(du, tgt))
             k += 1
             r2.instance({"serialiser": sname, "header": hname, "line": t["span"]["line"], "pushed_onto_serialised_value": ok}, ok)
             if not ok:
@@ -111,12 +138,15 @@ def run(ctx):
     r3 = chk.rule("R3-boundary-constant-shared", "the multipart delimiter lines and the boundary parameter of Content-Type are built from the same constant", floor=2)
     gb = F.fns.get("response::Response::generate_body")
     items = {}
+    from ..inline import IN_INFO
     for name in ("response::Response::generate_body",) + SERIALISERS:
         fn = F.fns.get(name)
         if fn is None:
             continue
         found = set()
-        bodies = [fn] + [pf for pn, pf in F.fns.items() if pn.startswith(name + "::{promoted#")]
+        ifn = ctx.inl(fn)        # the framing headers may be built by a private helper
+        inlined_names = set(IN_INFO.get(id(ifn), {}).get("callees", [])) | {name}
+        bodies = [ifn] + [pf for pn, pf in F.fns.items() if any(pn.startswith(x + "::{promoted#") for x in inlined_names)]
         for body in bodies:
           du = du_of(body)
           for b in body.blocks:
@@ -215,6 +245,13 @@ def _strip_headers(tgt):
     if not idx:
         return None
     return (l, proj[:idx[-1]])
+
+
+def _norm_vec(du, p):
+    """canonical vector place without derefs (`(*response).headers` and `response.headers` are the same vector)"""
+    c = du.canon(p)
+    base = du.canon((c[0], ()))
+    return (base[0], tuple(x for x in base[1] if x != "*") + tuple(x for x in c[1] if x != "*"))
 
 
 def _same_value(du, a, b):
